@@ -27,7 +27,8 @@ func init() {
 			"T5 a successful Reset restores exactly the state Init establishes (every field iteration writes), and fails with an error otherwise. T7: the same merge-step clauses T1-T4 hold from every state reached through a Reset that returned an error (sources that were not reset keep position and look-ahead, sources that were reset restart). T8: Init sets every boolean/integer control field, so a Mixer may be initialised again (the statement speaks of the mixer, not of a Mixer value used once). " +
 			"T9: no path of Init/HasNext/Next/Reset calls Close of a source (observed as an environment call on every reachable abstract state): an iterator must not be used after Close, so a source closed before the mixer's own Close cannot be restarted by Reset. " +
 			"T10: every type of the package that is an Iterator and a golibs.Reseter whose Reset can return nil (the slice iterator, the Mixer as the input of another mixer) replays: every field, memory reached through a field, or nested iterator that its HasNext/Next (and what they call) modify is written again - or reset through golibs.Reseter - by its Reset; Mixer.Reset relies on exactly this when it takes a nil answer of a source's Reset for a restart. " +
-			"T11: the exploration is closed under every exported method of the Mixer that writes a field or advances/resets/closes a source (found by its footprint): such a method is interpreted from every reachable abstract state like Reset (function-typed parameters answered nondeterministically, environment-bounded loops cut when the abstract state repeats), it may discard look-ahead elements, and T1-T4/T9 must hold in it and in every state reachable after it - a selection kept in force across a change of the heads shows up as an element emitted without the selector having been consulted for the current heads, or from an empty look-ahead.",
+			"T11: the exploration is closed under every exported method of the Mixer that writes a field or advances/resets/closes a source (found by its footprint): such a method is interpreted from every reachable abstract state like Reset (function-typed parameters answered nondeterministically, environment-bounded loops cut when the abstract state repeats), it may discard look-ahead elements, and T1-T4/T9 must hold in it and in every state reachable after it - a selection kept in force across a change of the heads shows up as an element emitted without the selector having been consulted for the current heads, or from an empty look-ahead. " +
+			"T12: every failing exit of the Reset of a resettable iterator type of the package is the propagation of an environment error, or guarded by a failed capability assertion, or by a test of a field that only Close can make true (the zero value and all stores outside Close fail the test): an input that was never closed can be reset, also an empty one.",
 		NotDecided: "the merged sequence as a value (induction over the inputs); behaviour of ill-behaved sources whose HasNext is not monotone.",
 	})
 }
@@ -51,6 +52,7 @@ func runC18(c *Ctx) {
 	// T9 (census part) and T10 do not depend on the interpretation below (v_mixer.go)
 	c.noCloseOutsideInterpretation(c18T9, "container/iterable", hasNext, next, reset)
 	c.resettableIteratorsReplay(c18T10, "container/iterable", mixer)
+	c.resetRefusesOnlyClosed(c18T12, "container/iterable") // v_mixer_h.go
 	// T11 (v_mixer_g.go): further exported methods of the Mixer that change its state join the exploration
 	ext := c.c18Extensions(mixer, "container/iterable", initFn, hasNext, next, reset)
 	pkg := c.P.SSAPkg("container/iterable")
